@@ -17,7 +17,67 @@ func (r *RNG) Coef() (*big.Int, string) {
 	}
 }
 
+// internal thresholds of multi-word decimal arithmetic: word boundaries, the
+// usual "one more multiply by ten fits" guards, type bounds. Coefficients of
+// the form floor(T/10^j)+delta make a scaled operand land next to them.
+var thresholds = func() []*big.Int {
+	var ts []*big.Int
+	for _, k := range []uint{31, 32, 53, 63, 64, 96, 113, 127, 128, 160, 192, 224, 256} {
+		ts = append(ts, new(big.Int).Lsh(ref.One, k))
+	}
+	hex := []string{
+		"19000000000000000000000000000000", // 0x18ff..ff+1 << 64: guard of the x10 scale-up loops
+		"1999999999999999999999999999999a", // ceil(2^128/10)
+		"19999999999999990000000000000000", // MaxUint64/10 in the high word
+		"00028000000000000000000000000000", // Cmax+1
+		"00027fffffffffff0000000000000000", // high word of Cmax with an empty low word
+		"0002800000000000", "00068db8bac710cb", "09c4000000000000", "00fa000000000000", "0019000000000000",
+		"ffffffffffffffff", "7fffffffffffffff", "ffffffff", "7fffffff",
+		"0000ffffffffffffffffffffffffffffffffffffffffffffffff", // 192-bit guard area
+	}
+	for _, h := range hex {
+		t, _ := new(big.Int).SetString(h, 16)
+		ts = append(ts, t)
+	}
+	return ts
+}()
+
+// ThresholdCoef returns floor(T/10^j)+delta for an internal threshold T.
+func (r *RNG) ThresholdCoef() *big.Int {
+	for try := 0; try < 40; try++ {
+		t := thresholds[r.Intn(len(thresholds))]
+		j := r.Intn(42)
+		c := new(big.Int).Quo(t, ref.Pow10(j))
+		switch r.Intn(4) {
+		case 0:
+			c.Add(c, big.NewInt(int64(r.Range(-2, 2))))
+		case 1:
+			c.Add(c, ref.One)
+		case 2:
+			c.Add(c, r.BigBelow(ref.Pow10(r.Range(1, 19))))
+		}
+		if c.Sign() > 0 && c.Cmp(ref.Cmax) <= 0 {
+			// optionally strip or add trailing zeros (cohort of the same coefficient shape)
+			if r.Chance(1, 4) {
+				q, m := new(big.Int), new(big.Int)
+				for {
+					q.QuoRem(c, ref.Ten, m)
+					if m.Sign() != 0 || q.Sign() == 0 {
+						break
+					}
+					c.Set(q)
+				}
+			}
+			return c
+		}
+	}
+	return big.NewInt(1)
+}
+
 func (r *RNG) coef1() (*big.Int, string) {
+	if r.Chance(1, 12) {
+		return r.ThresholdCoef(), "threshold/10^j"
+	}
 	switch r.Intn(16) {
 	case 0:
 		return big.NewInt(int64(r.Intn(20))), "small"
